@@ -67,26 +67,41 @@ func init() {
 			if err := app.ClpKeeper.SetPool(ctx, &pool); err != nil {
 				panic(err)
 			}
-			// two adjacent reward periods starting at block 3
+			// software upgrades: 0 none; 1 one upgrade of a chain written by the previous binary; 2 an
+			// upgrade with no version change; 3 two upgrades
+			scenario := rng.Intn(4)
+			u1 := int64(4 + rng.Intn(5))
 			var rps []*clptypes.RewardPeriod
 			var toks []string
 			at := uint64(3)
-			for i := 0; i < 2; i++ {
-				length := uint64(2 + rng.Intn(8))
-				alloc := sdk.NewUintFromBigInt(rng.Amount(90))
+			addPeriod := func(i int, start, end uint64, alloc sdk.Uint, m uint64) {
 				def := sdk.OneDec()
-				m := uint64(1 + rng.Intn(4))
-				rps = append(rps, &clptypes.RewardPeriod{RewardPeriodId: fmt.Sprintf("rp%d", i), RewardPeriodStartBlock: at, RewardPeriodEndBlock: at + length - 1,
+				rps = append(rps, &clptypes.RewardPeriod{RewardPeriodId: fmt.Sprintf("rp%d", i), RewardPeriodStartBlock: start, RewardPeriodEndBlock: end,
 					RewardPeriodAllocation: &alloc, RewardPeriodDefaultMultiplier: &def, RewardPeriodDistribute: false, RewardPeriodMod: m})
-				toks = append(toks, fmt.Sprintf("%d %d %s %d", at, at+length-1, alloc, m))
-				at += length
+				toks = append(toks, fmt.Sprintf("%d %d %s %d", start, end, alloc, m))
+			}
+			if scenario >= 1 && u1 >= 5 && rng.Chance(2, 3) {
+				// two OVERLAPPING periods around the upgrade height: P0, listed first, ends in the block before
+				// the upgrade on a non-distribution block of its mod (its accumulator is not empty); P1, listed
+				// after it, started earlier and is current from the upgrade block on
+				p0end := uint64(u1 - 1)
+				m0 := p0end - 3 + 1 // > p0end-3: the only distribution block of P0 is its first
+				addPeriod(0, 3, p0end, sdk.NewUintFromBigInt(new(big.Int).Mul(new(big.Int).Add(rng.Amount(80), big.NewInt(1000)), big.NewInt(int64(p0end-2)))), m0)
+				s1 := 4 + uint64(rng.Intn(int(p0end-3)))
+				e1 := p0end + uint64(3+rng.Intn(6))
+				addPeriod(1, s1, e1, sdk.NewUintFromBigInt(big.NewInt(int64(e1-s1+1)*int64(1+rng.Intn(20)))), uint64(1+rng.Intn(2)))
+				at = e1 + 1
+			} else {
+				// two adjacent reward periods starting at block 3
+				for i := 0; i < 2; i++ {
+					length := uint64(2 + rng.Intn(8))
+					addPeriod(i, at, at+length-1, sdk.NewUintFromBigInt(rng.Amount(90)), uint64(1+rng.Intn(4)))
+					at += length
+				}
 			}
 			params := app.ClpKeeper.GetRewardsParams(ctx)
 			params.RewardPeriods = rps
 			app.ClpKeeper.SetRewardParams(ctx, params)
-			// software upgrades: 0 none; 1 one upgrade of a chain written by the previous binary; 2 an
-			// upgrade with no version change; 3 two upgrades
-			scenario := rng.Intn(4)
 			if scenario == 1 || scenario == 3 {
 				vm := app.UpgradeKeeper.GetModuleVersionMap(ctx)
 				for mod, v := range releasedVersions {
@@ -119,7 +134,6 @@ func init() {
 			upgrades := map[int64]string{}
 			if scenario >= 1 {
 				upgradeSerial++
-				u1 := int64(4 + rng.Intn(5))
 				upgrades[u1] = fmt.Sprintf("verif-release-%d-a", upgradeSerial)
 				if scenario == 3 {
 					upgrades[u1+int64(2+rng.Intn(4))] = fmt.Sprintf("verif-release-%d-b", upgradeSerial)
@@ -195,7 +209,13 @@ func init() {
 				if cur != nil {
 					curS = fmt.Sprintf("cur=%d,%d,%s,%d", cur.RewardPeriodStartBlock, cur.RewardPeriodEndBlock, cur.RewardPeriodAllocation, cur.RewardPeriodMod)
 				}
-				out.Emit(fmt.Sprintf("chk c20.rwblock tag=clp.endblock.rewards.per-block %d %s %s", h, delta, curS), "true", "chk.rwblock", false)
+				rwTag := "clp.endblock.rewards.per-block"
+				for uh := range upgrades {
+					if h >= uh {
+						rwTag = "clp.endblock.rewards.per-block.after-upgrade"
+					}
+				}
+				out.Emit(fmt.Sprintf("chk c20.rwblock tag=%s %d %s %s", rwTag, h, delta, curS), "true", "chk.rwblock", false)
 				if rng.Chance(1, 3) {
 					// node restart: a new application object on the same database
 					app = openApp(db)
